@@ -33,6 +33,8 @@ structure ProcEng where
   dead : List (String × RunM) := []
   -- connect attempts per application: preconnect requests seen / preconnect replies given; and, fixed at the moment of a
   -- terminal verdict, how many attempts were then still before their connect step (they may still take it)
+  -- traces offered per run since its last default-data harvest: (run, kind 0 regular / 1 force-persisted / 2 synthetics, duration, id)
+  trOffers : List (String × Nat × Int × Nat) := []
   preLaunched : List (String × Nat) := []
   preAnswered : List (String × Nat) := []
   allowance : List (String × Nat) := []
@@ -340,7 +342,20 @@ def checkImplReqs (st : ProcEng) (reqs : List ImplReq) : ProcEng × List String 
           if strangers.isEmpty then [] else
             [s!"C07 proc: a metric_data payload of run {q.run} reports {(strangers.map (·.1)).take 3}, which no metric submitted under that run is renamed to by the rules of its connect reply"]
         else []
-      ({ st with sends := sends }, fails ++ f1 ++ f2 ++ f3 ++ f4 ++ f5 ++ f6 ++ f7 ++ f8)) (st, [])
+      -- C06: the traces in a payload are the longest-running of each kind that was offered in the period
+      let (st, f9) := if q.cmd == "transaction_sample_data" && !st.tainted.contains q.run then
+          let mine := st.trOffers.filter (·.1 == q.run)
+          let kept : List Nat := idsOfPayloadStr q.payload
+          let bad := [(0, Gen.Limits.MaxRegularTraces), (1, Gen.Limits.MaxForcePersistTraces), (2, Gen.Limits.MaxSyntheticsTraces)].filter (fun (kc : Nat × Nat) =>
+            let offers := mine.filter (·.2.1 == kc.1)
+            let keptK := offers.filter (fun o => kept.contains o.2.2.2)
+            let dropped := offers.filter (fun o => !kept.contains o.2.2.2)
+            keptK.length != min kc.2 offers.length ||
+              (keptK.any (fun k => dropped.any (fun d => d.2.2.1 > k.2.2.1))))
+          ({ st with trOffers := st.trOffers.filter (·.1 != q.run) },
+           if bad.isEmpty then [] else [s!"C06 proc: the traces sent for run {q.run} are not the longest-running of each kind offered in the period (kind {(bad.map (·.1))}: 0 regular, 1 force-persisted, 2 synthetics)"])
+        else (st, [])
+      ({ st with sends := sends }, fails ++ f1 ++ f2 ++ f3 ++ f4 ++ f5 ++ f6 ++ f7 ++ f8 ++ f9)) (st, [])
 
 /-- ids of a run that left the model's containers without being sent: evicted by capacity or given up -/
 def noteEvictions (st : ProcEng) (run : String) (before : List (String × Nat)) (incoming : List (String × Nat)) : ProcEng :=
@@ -400,6 +415,9 @@ def procStepCore0 (st : ProcEng) (t : Tokens) (_impl : Option String) : ProcEng 
       else st
     let rules := ((st.runRules.find? (·.1 == run)).map (·.2)).getD []
     let st := if alive then { st with qOffered := (txnQuantities rules txn).foldl (fun l q => qAdd l (run, q.1) q.2) st.qOffered } else st
+    let st := match alive, txn.trace with
+      | true, some (dur, guid, force) => { st with trOffers := (run, (if txn.syn then 2 else if force then 1 else 0), dur, guid) :: st.trOffers }
+      | _, _ => st
     (st, { model := "ok" })
   | "trigger" =>
     let run := tokStr t 2
@@ -487,7 +505,7 @@ def procStep (st0 : ProcEng) (t : Tokens) (impl : Option String) : ProcEng × St
   | none => (st, out)
   | some line =>
     -- bookkeeping that follows the ops
-    let st := if op == "init" then { st with evicted := [], noRetry := [], sends := [], runInfo := [], terminal := [], needConnect := [], lastAttempt := [], qOffered := [], qAcked := [], runRules := [], lossless := true, tainted := [], preLaunched := [], preAnswered := [], allowance := [] } else st
+    let st := if op == "init" then { st with evicted := [], noRetry := [], sends := [], runInfo := [], terminal := [], needConnect := [], lastAttempt := [], qOffered := [], qAcked := [], runRules := [], lossless := true, tainted := [], preLaunched := [], preAnswered := [], allowance := [], trOffers := [] } else st
     let o : Outcome := parseOutcome (tokStr t 5)
     let st := match picked with
       | some r => if r.cat == .preconnect then { st with preAnswered := cntSet st.preAnswered r.app (cntGet st.preAnswered r.app + 1) } else st
